@@ -174,3 +174,12 @@ pub fn bad_drain_stops_early(it: &mut dyn Iterator<Item = u32>, out: &mut Vec<u3
     }
     push(out.len() as u32);
 }
+
+// ---- named &str constants (SQL moved into a const must still be readable)
+pub const MODULE_SQL: &str = "SELECT 1 FROM module_level";
+
+pub fn uses_named_consts() -> usize {
+    const LOCAL_SQL: &str = "SELECT 2 FROM fn_level";
+    push(MODULE_SQL.len() as u32);
+    LOCAL_SQL.len() + MODULE_SQL.len()
+}
